@@ -235,7 +235,7 @@ def rule_r5(ctx):
         ctx.ob("R5", "extract() does not return through <view>.clone() (reported by R1)", True, nontrivial=False)
 
 
-def rule_r6(ctx):
+def rule_r6(ctx, rule="R6", consequence="an output that is an uncovered source value then appears in the extracted graph as a dangling value instead of making extract() raise"):
     cl = ctx.repo.cls("onnx_ir._cloner:Cloner")
     cg = cl.methods.get("clone_graph") if cl else None
     ctx.require(cg is not None, "Cloner.clone_graph not found")
@@ -273,12 +273,31 @@ def rule_r6(ctx):
         for c in calls:
             n += 1
             bad = creates(cl.methods[c.func.attr])
-            ctx.check("R6", f"clone_graph resolves graph outputs with {c.func.attr} (read-only lookup)", bad is None, cg, c,
+            ctx.check(rule, f"clone_graph resolves graph outputs with {c.func.attr} (read-only lookup)", bad is None, cg, c,
                       f"graph outputs are resolved with `{c.func.attr}`, which creates a value for an output that was never cloned "
-                      f"(`{short(norm(bad)) if bad is not None else ''}`): an output that is an uncovered source value then appears in the extracted graph as a "
-                      "dangling value instead of making extract() raise",
+                      f"(`{short(norm(bad)) if bad is not None else ''}`): {consequence}",
                       how="method applied to the elements of <graph>.outputs in clone_graph: no store into the value map, no Value(...) construction (self-calls followed)",
                       construct="graph outputs resolved by a creating lookup")
+        # … or with the value map itself: only the strict form `map[v]` (KeyError for an output that was not cloned); `.get(v, v)`,
+        # `.get(v)` or the output itself let a value of the ORIGINAL through
+        tv = comp.generators[0].target if not isinstance(comp, ast.For) else comp.target
+        for b in body:
+            for x in ast.walk(b):
+                lenient = None
+                if isinstance(x, ast.Call) and isinstance(x.func, ast.Attribute) and x.func.attr in ("get", "setdefault", "pop") and "value_map" in norm(x.func.value):
+                    lenient = x
+                elif x is b and isinstance(x, ast.Name) and isinstance(tv, ast.Name) and x.id == tv.id:
+                    lenient = x
+                elif isinstance(x, ast.Subscript) and "value_map" in norm(x.value):
+                    n += 1
+                    ctx.ob(rule, f"clone_graph resolves graph outputs with {norm(x)[:40]} (strict lookup)", True, how="subscript of the value map")
+                if lenient is not None:
+                    n += 1
+                    ctx.check(rule, f"clone_graph resolves graph outputs strictly ({norm(lenient)[:40]})", False, cg, lenient,
+                              f"graph outputs are resolved with `{norm(lenient)[:60]}`, which answers for an output that was never cloned (with the original's value, or None) "
+                              f"instead of refusing it: {consequence}",
+                              how="element expression over <graph>.outputs in clone_graph: a self-method that only reads the value map, or `map[v]`",
+                              construct="graph outputs resolved by a lenient lookup")
     ctx.require(n >= 1, "lookup of the graph outputs in Cloner.clone_graph not found")
 
 
